@@ -45,6 +45,12 @@ type SQuant struct {
 	Body   SExpr
 }
 type SSet struct{ Elems []SExpr }
+
+// SComposite: struct literal T{e1, ..., en} (positional) or T{}.
+type SComposite struct {
+	Type  SExpr
+	Elems []SExpr
+}
 type SConv struct { // conversion to a compound type written as type expr, e.g. []int8(x) (rare)
 	Type *STypeExpr
 	X    SExpr
@@ -353,10 +359,33 @@ func (p *sparser) postfix() SExpr {
 			}
 			p.expect("]")
 			x = &SIndex{x, lo}
+		case p.isOp("{") && isTypeNameExpr(x):
+			p.next()
+			var el []SExpr
+			for !p.isOp("}") {
+				el = append(el, p.expr())
+				if !p.accept(",") {
+					break
+				}
+			}
+			p.expect("}")
+			x = &SComposite{x, el}
 		default:
 			return x
 		}
 	}
+}
+
+// isTypeNameExpr: T or pkg.T (what may precede a composite literal's brace).
+func isTypeNameExpr(x SExpr) bool {
+	switch t := x.(type) {
+	case *SIdent:
+		return t.Name != "forall" && t.Name != "exists"
+	case *SSel:
+		_, ok := t.X.(*SIdent)
+		return ok
+	}
+	return false
 }
 
 func (p *sparser) primary() SExpr {
